@@ -1,14 +1,21 @@
 // Kani bounded stand-in for vba::VbaProject::from_cfb (C18) -- the function Verus cannot take (closures capturing `&mut cfb`,
-// `collect::<Result<BTreeMap,_>>`).  One concrete project image is BUILT here from the file-format definitions
+// `collect::<Result<BTreeMap,_>>`).  One project image is BUILT here from the file-format definitions
 //   [MS-OVBA] 2.3.4.2 dir stream (PROJECTINFORMATION, PROJECTREFERENCES (empty), PROJECTMODULES), 2.4.1 compression container,
-//   [MS-CFB] mini stream (64-byte mini sectors chained by the mini FAT),
+//   [MS-CFB] sectors chained by the FAT (dir stream) / 64-byte mini sectors chained by the mini FAT (module streams),
 // handed to the REAL `from_cfb`, and the result is compared with what the format says:
 //   module MODULENAME(0x19) |-> decompress( stream named by MODULESTREAMNAME(0x1A) [ MODULEOFFSET(0x31).TextOffset .. ] ).
 // Module names and stream names are CROSSED on purpose (module "A" lives in stream "SB", module "B" in stream "SA"), decoy streams
-// named "A"/"B" exist, and the two text offsets differ (0 and 3).  The module source bytes are symbolic.
+// named "A"/"B" can be present, and the two text offsets differ (0 and 3).  The module source bytes are symbolic.
 //
-// The compression encoder below (Tok .. encode_compressed_chunk) is a copy of the one in kani/vbadec.rs (written from the writer
-// side of [MS-OVBA] 2.4.1.3.7 / 2.4.1.3.19.3), only with a larger buffer.
+// How the image is made cheap for CBMC:
+//  * the `dir` stream (299 bytes of records) is stored as ONE RAW chunk (CompressedChunkFlag = 0, 4096 data bytes, [MS-OVBA]
+//    2.4.1.1.5/2.4.1.1.6): decompress_stream copies it without a token loop.  (A literal-token container of the same stream has
+//    ~300 tokens; CBMC's symbolic execution cannot resolve the flag bytes read back from the heap and unrolls the copy-token
+//    loop at every token position: measured > 15 min without a result.)  Its container is 4099 bytes >= 4096, so it lives in
+//    regular sectors (sector size 4096 = CFB v4, 2 sectors chained by the FAT).
+//  * that whole part is computed by `const fn`s at compile time (no loop unrolling of the builder under CBMC);
+//  * the two module streams are compressed containers (literal tokens and one copy token) encoded at run time from symbolic
+//    bytes by the encoder copied from kani/vbadec.rs (written from the writer side of [MS-OVBA] 2.4.1.3.7 / 2.4.1.3.19.3).
 
 #[derive(Clone, Copy)]
 enum Tok {
@@ -18,38 +25,37 @@ enum Tok {
     Copy(u16, u16),
 }
 
-const CAP: usize = 1024;
-
-/// a growable byte buffer without heap (CBMC friendly)
-struct Buf {
-    b: [u8; CAP],
+/// a growable byte buffer without heap (CBMC friendly, usable in const evaluation)
+#[derive(Clone, Copy)]
+struct Buf<const N: usize> {
+    b: [u8; N],
     n: usize,
 }
-impl Buf {
-    fn new() -> Buf {
-        Buf { b: [0; CAP], n: 0 }
+impl<const N: usize> Buf<N> {
+    const fn new() -> Buf<N> {
+        Buf { b: [0; N], n: 0 }
     }
-    fn push(&mut self, x: u8) {
+    const fn push(&mut self, x: u8) {
         self.b[self.n] = x;
         self.n += 1;
     }
-    fn extend(&mut self, xs: &[u8]) {
+    const fn extend(&mut self, xs: &[u8]) {
         let mut k = 0;
         while k < xs.len() {
             self.push(xs[k]);
             k += 1;
         }
     }
-    fn u16(&mut self, x: u16) {
+    const fn u16(&mut self, x: u16) {
         self.push((x & 0xFF) as u8);
         self.push((x >> 8) as u8);
     }
-    fn u32(&mut self, x: u32) {
+    const fn u32(&mut self, x: u32) {
         self.u16((x & 0xFFFF) as u16);
         self.u16((x >> 16) as u16);
     }
     /// a record `Id(2) Size(4) payload(Size)`
-    fn var(&mut self, id: u16, payload: &[u8]) {
+    const fn var(&mut self, id: u16, payload: &[u8]) {
         self.u16(id);
         self.u32(payload.len() as u32);
         self.extend(payload);
@@ -76,7 +82,7 @@ fn pack_copy_token(difference: usize, off: u16, len: u16) -> u16 {
 }
 
 /// one CompressedChunk (2.4.1.1.4) with CompressedChunkFlag = 1: header, then TokenSequences = FlagByte + up to 8 tokens
-fn encode_compressed_chunk(tokens: &[Tok], out: &mut Buf) {
+fn encode_compressed_chunk<const N: usize>(tokens: &[Tok], out: &mut Buf<N>) {
     let header_at = out.n;
     out.push(0);
     out.push(0);
@@ -113,20 +119,14 @@ fn encode_compressed_chunk(tokens: &[Tok], out: &mut Buf) {
     out.b[header_at + 1] = (header >> 8) as u8;
 }
 
-/// CompressedContainer (2.4.1.1.1): SignatureByte 0x01 + one compressed chunk of literal tokens only
-fn compress_literals(data: &[u8], out: &mut Buf) {
-    let mut toks = [Tok::Lit(0); 400];
-    let mut k = 0;
-    while k < data.len() {
-        toks[k] = Tok::Lit(data[k]);
-        k += 1;
-    }
+/// CompressedContainer (2.4.1.1.1): SignatureByte 0x01 + one compressed chunk
+fn compress<const N: usize>(tokens: &[Tok], out: &mut Buf<N>) {
     out.push(0x01);
-    encode_compressed_chunk(&toks[..data.len()], out);
+    encode_compressed_chunk(tokens, out);
 }
 
 /// one MODULE record (2.3.4.2.3.2) of a procedural module without the optional READONLY/PRIVATE records
-fn module_record(d: &mut Buf, name: &[u8], stream_name: &[u8], text_offset: u32) {
+const fn module_record<const N: usize>(d: &mut Buf<N>, name: &[u8], stream_name: &[u8], text_offset: u32) {
     d.var(0x0019, name); // MODULENAME
     d.var(0x0047, &[]); // MODULENAMEUNICODE
     d.var(0x001A, stream_name); // MODULESTREAMNAME.StreamName
@@ -149,7 +149,7 @@ fn module_record(d: &mut Buf, name: &[u8], stream_name: &[u8], text_offset: u32)
 }
 
 /// the decompressed `dir` stream (2.3.4.2): PROJECTINFORMATION, no references, PROJECTMODULES with the two given modules
-fn dir_stream(d: &mut Buf, m0: (&[u8], &[u8], u32), m1: (&[u8], &[u8], u32)) {
+const fn dir_stream<const N: usize>(d: &mut Buf<N>, m0: (&[u8], &[u8], u32), m1: (&[u8], &[u8], u32)) {
     // PROJECTINFORMATION (2.3.4.2.1)
     d.u16(0x0001); // PROJECTSYSKIND
     d.u32(4);
@@ -195,15 +195,31 @@ fn dir_stream(d: &mut Buf, m0: (&[u8], &[u8], u32), m1: (&[u8], &[u8], u32)) {
     d.u32(0);
 }
 
+const SECTOR: usize = 4096;
+
+/// compile-time part of the image: the regular sectors of the compound file = the `dir` stream as a container with one RAW chunk
+/// (SignatureByte 0x01; header: CompressedChunkSize = 4095, signature 0b011, CompressedChunkFlag 0; 4096 data bytes, zero padded)
+const DIR_SECTORS: Buf<{ 2 * SECTOR }> = {
+    let mut d: Buf<4096> = Buf::new();
+    dir_stream(&mut d, (b"A", b"SB", 0), (b"B", b"SA", 3));
+    let mut s: Buf<{ 2 * SECTOR }> = Buf::new();
+    s.push(0x01);
+    s.u16(0x3FFF);
+    s.extend(&d.b);
+    s
+};
+/// length of the `dir` stream (container) in the compound file
+const DIR_LEN: usize = 1 + 2 + 4096;
+
 /// mini stream + mini FAT under construction: every stream occupies consecutive 64-byte mini sectors chained in order
 struct Mini {
-    data: Buf,
-    fat: [u32; CAP / 64],
+    data: Buf<640>,
+    fat: [u32; 10],
     nfat: usize,
 }
 impl Mini {
     fn new() -> Mini {
-        Mini { data: Buf::new(), fat: [0xFFFF_FFFF; CAP / 64], nfat: 0 }
+        Mini { data: Buf::new(), fat: [0xFFFF_FFFF; 10], nfat: 0 }
     }
     /// store `bytes` as a new stream; returns its directory entry
     fn add(&mut self, name: &str, bytes: &[u8]) -> Directory {
@@ -215,60 +231,117 @@ impl Mini {
             self.nfat += 1;
             k += 1;
         }
-        self.data.extend(bytes);
-        self.data.n = self.nfat * 64; // pad to the mini sector boundary (buffer is zero filled)
+        self.data.b[first * 64..first * 64 + bytes.len()].copy_from_slice(bytes);
+        self.data.n = self.nfat * 64; // padded to the mini sector boundary (buffer is zero filled)
         Directory { name: String::from(name), start: first as u32, len: bytes.len() }
     }
 }
 
+/// loop-free slice comparison for expected values of at most 4 bytes (keeps the global unwind bound small)
 fn same(got: &[u8], want: &[u8]) -> bool {
-    if got.len() != want.len() {
-        return false;
-    }
-    let mut k = 0;
-    while k < want.len() {
-        if got[k] != want[k] {
-            return false;
-        }
-        k += 1;
-    }
-    true
+    assert!(want.len() <= 4);
+    got.len() == want.len()
+        && (want.len() < 1 || got[0] == want[0])
+        && (want.len() < 2 || got[1] == want[1])
+        && (want.len() < 3 || got[2] == want[2])
+        && (want.len() < 4 || got[3] == want[3])
 }
 
-/// shared body: `src_a` is the source of module "A" (stored in stream "SB" at offset 0), `src_b` of module "B" ("SA", offset 3)
-fn run_project(src_a: &[u8], src_b: &[u8], decoys: bool) {
-    // (a) dir stream, compressed
-    let mut dir = Buf::new();
-    dir_stream(&mut dir, (b"A", b"SB", 0), (b"B", b"SA", 3));
-    let mut dir_c = Buf::new();
-    compress_literals(&dir.b[..dir.n], &mut dir_c);
-    // (b) module streams: TextOffset bytes of "performance cache" junk, then the compressed source
-    let mut sb = Buf::new();
-    compress_literals(src_a, &mut sb);
-    let mut sa = Buf::new();
-    sa.extend(&[0xAA, 0x01, 0xCC]);
-    compress_literals(src_b, &mut sa);
-    // (c) compound file: everything in the mini stream
+/// TRUSTED stub of `encoding_rs::Encoding::decode` (dependency, not under verification): for the windows-1252 encoding and input
+/// bytes that are all < 0x80 the decoded text consists of the same ASCII characters (WHATWG single-byte decoder; no BOM is ASCII).
+/// The stub ASSERTS that it is used only in that domain.
+fn decode_ascii_1252_stub<'a>(e: &'static Encoding, bytes: &'a [u8]) -> (Cow<'a, str>, &'static Encoding, bool) {
+    assert!(e == encoding_rs::WINDOWS_1252);
+    let mut k = 0;
+    while k < bytes.len() {
+        assert!(bytes[k] < 0x80);
+        k += 1;
+    }
+    (Cow::Borrowed(unsafe { std::str::from_utf8_unchecked(bytes) }), e, false)
+}
+
+/// TRUSTED stub of `codepage::to_encoding` (dependency): code page 1252 is windows-1252.  Asserts it is asked for 1252 only.
+fn to_encoding_1252_stub(cp: u16) -> Option<&'static Encoding> {
+    assert!(cp == 1252);
+    Some(encoding_rs::WINDOWS_1252)
+}
+
+/// image 1 (REAL decompress_stream): `toks_a` encodes the source of module "A" (stored in stream "SB" at offset 0), `toks_b` that of
+/// module "B" (stream "SA", offset 3).  Module streams in the mini stream, dir stream (raw chunk) in two regular 4096-byte sectors.
+fn image_real(toks_a: &[Tok], toks_b: &[Tok], decoys: bool) -> Cfb {
+    // module streams: TextOffset bytes of "performance cache" junk, then the compressed source
+    let mut sb: Buf<32> = Buf::new();
+    compress(toks_a, &mut sb);
+    let mut sa: Buf<32> = Buf::new();
+    sa.push(0xAA);
+    sa.push(0x01);
+    sa.push(0xCC);
+    compress(toks_b, &mut sa);
     let mut mini = Mini::new();
     let mut directories = Vec::with_capacity(6);
-    directories.push(Directory { name: String::from("Root Entry"), start: ENDOFCHAIN, len: 0 });
     if decoys {
         // streams that carry the MODULE names: valid containers with other content; must not be used
-        let mut dc = Buf::new();
-        compress_literals(&[0x5A], &mut dc);
+        let mut dc: Buf<32> = Buf::new();
+        compress(&[Tok::Lit(0x5A)], &mut dc);
         directories.push(mini.add("A", &dc.b[..dc.n]));
         directories.push(mini.add("B", &dc.b[..dc.n]));
     }
     directories.push(mini.add("SA", &sa.b[..sa.n]));
-    directories.push(mini.add("dir", &dir_c.b[..dir_c.n]));
+    directories.push(Directory { name: String::from("dir"), start: 0, len: DIR_LEN });
     directories.push(mini.add("SB", &sb.b[..sb.n]));
-    let mut cfb = Cfb {
+    Cfb {
+        directories,
+        sectors: Sectors::new(SECTOR, DIR_SECTORS.b.to_vec()),
+        fats: [1, ENDOFCHAIN].to_vec(),
+        mini_sectors: Sectors::new(64, mini.data.b[..mini.data.n].to_vec()),
+        mini_fats: mini.fat[..mini.nfat].to_vec(),
+    }
+}
+
+/// MODEL of `decompress_stream` for the wiring harnesses: a container is SignatureByte 0x01 followed by the data "stored" as is,
+/// D(0x01 ++ d) = d, anything else is an error.  from_cfb is parametric in the decompression function (it only passes slices to it
+/// and stores/parses what comes back); decompress_stream itself is covered by the Verus unit `vbadec` and kani/vbadec.rs.
+fn decompress_model(s: &[u8]) -> Result<Vec<u8>, CfbError> {
+    if s[0] != 0x01 {
+        return Err(CfbError::Invalid { name: "signature", expected: "0x01", found: s[0] as u16 });
+    }
+    Ok(s[1..].to_vec())
+}
+
+/// the `dir` stream in the compound file under the model: 0x01 ++ records
+const DIR_MODEL: Buf<320> = {
+    let mut d: Buf<320> = Buf::new();
+    d.push(0x01);
+    dir_stream(&mut d, (b"A", b"SB", 0), (b"B", b"SA", 3));
+    d
+};
+
+/// image 2 (decompress_stream replaced by the model D): stream "SB" = 0x01 ++ src_a, stream "SA" = 3 junk bytes ++ 0x01 ++ src_b,
+/// stream "dir" = 0x01 ++ records; all three (and the decoys) in the mini stream, "dir" spans 5 mini sectors
+fn image_model(src_a: &[u8; 3], src_b: &[u8; 2], junk: &[u8; 3], decoys: bool) -> Cfb {
+    let sb = [0x01, src_a[0], src_a[1], src_a[2]];
+    let sa = [junk[0], junk[1], junk[2], 0x01, src_b[0], src_b[1]];
+    let mut mini = Mini::new();
+    let mut directories = Vec::with_capacity(6);
+    directories.push(Directory { name: String::from("Root Entry"), start: ENDOFCHAIN, len: 0 });
+    if decoys {
+        directories.push(mini.add("A", &[0x01, 0x5A]));
+        directories.push(mini.add("B", &[0x01, 0x5B]));
+    }
+    directories.push(mini.add("SA", &sa));
+    directories.push(mini.add("dir", &DIR_MODEL.b[..DIR_MODEL.n]));
+    directories.push(mini.add("SB", &sb));
+    Cfb {
         directories,
         sectors: Sectors::new(512, Vec::new()),
         fats: Vec::new(),
         mini_sectors: Sectors::new(64, mini.data.b[..mini.data.n].to_vec()),
         mini_fats: mini.fat[..mini.nfat].to_vec(),
-    };
+    }
+}
+
+/// run the REAL from_cfb and compare with the format's meaning
+fn check_project(mut cfb: Cfb, src_a: &[u8], src_b: &[u8]) {
     let mut r: &[u8] = &[];
     let p = match crate::vba::VbaProject::from_cfb(&mut r, &mut cfb) {
         Ok(p) => p,
@@ -294,29 +367,60 @@ fn run_project(src_a: &[u8], src_b: &[u8], decoys: bool) {
     assert!(p.get_references().is_empty());
 }
 
-/// 2 modules, crossed stream names, offsets 0 / 3, module sources of 3 and 2 SYMBOLIC bytes, no decoy streams
+// ---------------------------------------------------------------------------------------------------------------------------
+// wiring harnesses: decompress_stream = model D, Encoding::decode = ASCII/1252 stub; stream contents symbolic
+
+fn wiring_case(decoys: bool) {
+    let x: [u8; 3] = kani::any();
+    let y: [u8; 2] = kani::any();
+    let junk: [u8; 3] = kani::any();
+    kani::cover!(x[0] != y[0] && junk[0] == 0x01);
+    check_project(image_model(&x, &y, &junk, decoys), &x, &y);
+}
+
 #[kani::proof]
-#[kani::unwind(420)]
+#[kani::unwind(7)]
+#[kani::stub(encoding_rs::Encoding::decode, decode_ascii_1252_stub)]
+#[kani::stub(decompress_stream, decompress_model)]
+pub fn from_cfb_wiring() {
+    wiring_case(false);
+}
+
+#[kani::proof]
+#[kani::unwind(9)]
+#[kani::stub(encoding_rs::Encoding::decode, decode_ascii_1252_stub)]
+#[kani::stub(decompress_stream, decompress_model)]
+pub fn from_cfb_wiring_decoys() {
+    wiring_case(true);
+}
+
+// ---------------------------------------------------------------------------------------------------------------------------
+// end-to-end harnesses: REAL decompress_stream
+
+fn real_case(decoys: bool) {
+    let x: [u8; 2] = kani::any();
+    let y: u8 = kani::any();
+    kani::cover!(x[0] != y);
+    // module A: 2 literals;  module B: 1 literal and a copy token (offset 1, length 3)
+    let ta = [Tok::Lit(x[0]), Tok::Lit(x[1])];
+    let tb = [Tok::Lit(y), Tok::Copy(1, 3)];
+    check_project(image_real(&ta, &tb, decoys), &x, &[y, y, y, y]);
+}
+
+/// `encoding_rs::Encoding::decode` stubbed, real decompress_stream
+#[kani::proof]
+#[kani::unwind(4)]
+#[kani::stub(encoding_rs::Encoding::decode, decode_ascii_1252_stub)]
 pub fn from_cfb_two_modules_crossed_streams() {
-    let a: [u8; 3] = kani::any();
-    let b: [u8; 2] = kani::any();
-    kani::cover!(a[0] != b[0]);
-    run_project(&a, &b, false);
+    real_case(false);
 }
 
-/// same with decoy streams named like the modules ("A", "B") present in the compound file
+/// concrete-input run of the real code under Kani
 #[kani::proof]
-#[kani::unwind(420)]
-pub fn from_cfb_two_modules_crossed_streams_decoys() {
-    let a: [u8; 3] = kani::any();
-    let b: [u8; 2] = kani::any();
-    kani::cover!(a[0] != b[0]);
-    run_project(&a, &b, true);
-}
-
-/// concrete-input run of the real code under Kani (cheap variant): module sources "abc" / "de"
-#[kani::proof]
-#[kani::unwind(420)]
+#[kani::unwind(4)]
+#[kani::stub(encoding_rs::Encoding::decode, decode_ascii_1252_stub)]
 pub fn from_cfb_two_modules_concrete() {
-    run_project(b"abc", b"de", true);
+    let ta = [Tok::Lit(b'a'), Tok::Lit(b'b')];
+    let tb = [Tok::Lit(b'd'), Tok::Copy(1, 3)];
+    check_project(image_real(&ta, &tb, false), b"ab", b"dddd");
 }
